@@ -189,9 +189,14 @@ class Canon:
     tags.sort(key=lambda kv: key_order(kv[0]))
     fn = b.__fn_or_cls__
     fn_label = leaf(fn) if is_value(fn) else self.go(fn)
+    extra = ()
+    if self.mode == 'frame':
+      # frame conditions also cover the history log (lengths) and the store objects
+      extra = (tuple(sorted((str(k), len(v)) for k, v in b.__argument_history__.items())),
+               id(b.__arguments__))
     return ('B', tag, sym(type(b)), fn_label,
             tuple((k, self.go(args[k])) for k in sorted(args, key=key_order)),
-            tuple(tags))
+            tuple(tags)) + extra
 
   # -- built objects ---------------------------------------------------------------
   def built_object(self, x, tag):
